@@ -131,7 +131,7 @@ def _params(fn):
                         "hasdef": p.default is not None, "variadic": False})
         else:
             out.append({"name": p.name, "input": True, "atype": "", "required": bool(p.required),
-                        "hasdef": not p.required, "variadic": bool(p.variadic)})
+                        "hasdef": bool(p.has_default()), "variadic": bool(p.variadic)})
         out[-1]["pykind"] = _PYKIND[q.kind]
         out[-1]["pydef"] = q.default is not inspect.Parameter.empty
     if [p["name"] for p in out] != list(py):
@@ -234,6 +234,11 @@ def seeded_registry(canon):
         next(p for p in e["params"] if p["pykind"] == "pk" and p["hasdef"]).update(required=True, hasdef=False, pydef=False)
         out.append(e)
     tags.add("required_unbound")
+    # op_signature declares a parameter required although python fills it from its default (trace-only)
+    e = pick(lambda e: e["traced"] and e["qname"] not in {x["qname"] for x in out}
+             and any(p["pykind"] == "pk" and p["pydef"] and p["input"] for p in e["params"]))
+    next(p for p in e["params"] if p["pykind"] == "pk" and p["pydef"] and p["input"]).update(required=True, hasdef=False)
+    out.append(e)
     # a meaningful keyword-only argument without parameter: silently dropped (scripted) / TypeError (traced)
     for traced, tag in ((False, "dropped"), (True, "rejected")):
         e = pick(lambda e: e["traced"] == traced and any(p["pykind"] == "ko" and p["name"] not in DROPPABLE for p in e["params"]))
@@ -500,6 +505,11 @@ def part_binding(ctx: core.Ctx):
     reg_file = core.write_tlc_json(os.path.join(d, "c16_reg.json"), entries)
     empty = core.write_tlc_json(os.path.join(d, "c16_noobs.json"), [])
     ctx.set("registry_entries", len(entries))
+    odd = [(e["qname"], p["name"], p["required"]) for e in entries for p in e["params"]
+           if p["pykind"] in ("po", "pk", "ko") and p["required"] == p["pydef"]]
+    ctx.set("signature_python_disagreements", len(odd))   # op_signature.required vs python default; judged where a call shape exposes it
+    for q, n, req in odd[:3]:
+        print(f"NOTE C16 {q}: op_signature has required={req} for parameter '{n}' although python has {'a' if req else 'no'} default for it", flush=True)
     ctx.set("scripted_entries", sum(1 for e in entries if not e["traced"]))
     ctx.set("resolution", dict(collections.Counter(e["resolved"] for e in entries)))
 
@@ -516,6 +526,8 @@ def part_binding(ctx: core.Ctx):
     vac = _tlc_binding("AtenBinding_vacuity.cfg", seed_file, empty, dump=True, coverage=True, extra=["-continue"])
     ctx.tlc(vac, "AtenBinding_vacuity.cfg (seeded defects)")
     got_tags = {f["tag"] for s in vac.dump for f in s["fails"]}
+    if not any(s["pc"] == "done" and any(f["tag"] == "required_unbound" for f in s["fails"]) for s in vac.dump):
+        raise core.MachineryError("vacuity: a parameter declared required by op_signature but filled from its python default is not reported")
     if "Invariant BindsCorrectly is violated" not in vac.out or "Invariant MachineSane is violated" in vac.out or not want_tags <= got_tags:
         raise core.MachineryError(f"vacuity: seeded defects not reported (missing {sorted(want_tags - got_tags)}, violated={vac.violated})")
 
